@@ -845,6 +845,11 @@ func deleteExpiredCerts(ctx context.Context, storage Storage, logger *zap.Logger
 				continue
 			}
 			if len(siteAssets) == 0 {
+				// a terminal key (e.g. a stray file next to the site folders) also
+				// lists as empty; only an actual folder may be removed here
+				if info, err := storage.Stat(ctx, siteKey); err != nil || info.IsTerminal {
+					continue
+				}
 				logger.Info("deleting site folder because key is empty", zap.String("site_key", siteKey))
 				err := storage.Delete(ctx, siteKey)
 				if err != nil {
